@@ -61,6 +61,8 @@ func childMain(args []string) {
 			os.Exit(4)
 		}
 		os.Exit(0)
+	case "sshproxy":
+		sshProxyMain(args[1:])
 	}
 	os.Exit(2)
 }
